@@ -26,8 +26,7 @@ STAGE = "wrappers"
 AUX = "auxiliary model (wrappers / simple phase-matching functions) no longer corresponds: "
 FILES = ["Proofs/Compose_wrappers_c03.vo", "Proofs/Compose_wrappers_eff.vo", "Proofs/Compose_wrappers_misc.vo", "Proofs/Compose_gridres.vo",
          "Proofs/Compose_pmsimple.vo", "Proofs/Compose_pmsimple_cases.vo"]
-W_C03 = ["wrapbase", "wrap_SPDC_delta_k", "wrap_SPDC_optimum_idler", "wrap_SPDC_assign_optimum_idler", "wrap_SPDC_with_optimum_idler",
-         "wrap_SPDC_optimum_crystal_theta", "wrap_SPDC_assign_optimum_crystal_theta", "wrap_SPDC_with_optimum_crystal_theta"]
+W_C03 = ["wrapbase", "wrap_SPDC_delta_k", "wrap_SPDC_optimum_idler", "wrap_SPDC_assign_optimum_idler", "wrap_SPDC_assign_optimum_crystal_theta"]
 W_EFF = ["wrapbase", "wrap_SPDC_efficiencies", "wrap_efficiencies", "wrap_SPDC_counts_coincidences", "wrap_SPDC_counts_singles_signal",
          "wrap_SPDC_counts_singles_idler"]
 GENERATORS = ["wrapbase", "wrap_*", "gridres", "pmsimple"]
